@@ -120,12 +120,26 @@ def make_replacement(rng, pat_elems, pat_pos, cfg, side="r", allow_empty=True):
         else:
             d = np.array([float(_dy(rng, -1.5, 1.5)) for _ in range(3)])
             atoms.append(("new", None, rng.choice(NEW_ELEMENTS), cen + d))
+    if cfg.get("nudge") and gone:
+        # a same-element atom NUDGED by 1e-4 … 0.09 Å from a search atom that is not kept: by the documented rule
+        # (identical coordinates) it is NOT shared — the matched atom is removed, this one is inserted
+        for j in rng.sample(gone, min(len(gone), rng.randint(1, 2))):
+            while True:
+                d = np.array([rng.choice([0, 0, 1, -1]) * float(rng.choice([Fraction(1, 4096), Fraction(1, 256),
+                              Fraction(1, 64), Fraction(1, 32), Fraction(3, 64)])) for _ in range(3)])
+                if 1e-4 < np.linalg.norm(d) < 0.09:
+                    break
+            atoms.append(("nudge", j, pat_elems[j], ppos[j] + d))
     # no new atom may coincide with a kept atom of the same element (it would be identified with it)
     clean = []
     for a in atoms:
+        if a[0] == "nudge":
+            clean.append(a)
+            continue
         if a[0] == "new" and any(b[0] == "keep" and b[2] == a[2] and np.linalg.norm(b[3] - a[3]) < 0.2 for b in atoms):
             continue
-        if a[0] == "new" and any(b is not a and b[0] == "new" and np.linalg.norm(b[3] - a[3]) < 0.2 for b in clean):
+        if a[0] == "new" and any(b is not a and b[0] in ("new", "nudge") and np.linalg.norm(b[3] - a[3]) < 0.2
+                                 for b in clean + [x for x in atoms if x[0] == "nudge"]):
             continue
         clean.append(a)
     atoms = clean
@@ -155,7 +169,15 @@ def make_replacement(rng, pat_elems, pat_pos, cfg, side="r", allow_empty=True):
             xl = ["_geom_%s_tag" % k] + (["_geom_%s_aux" % k] if rng.random() < 0.3 else [])
         ntk = rng.randint(1, 3)
         if r_terms and n >= ar:
-            for tup in _rand_tuples(rng, list(range(n)), ar, rng.randint(1, 4), set()):
+            tups = _rand_tuples(rng, list(range(n)), ar, rng.randint(1, 4), set())
+            nudged = [i for i, a in enumerate(atoms) if a[0] == "nudge"]
+            if nudged and tups and not any(set(t) & set(nudged) for t in tups):
+                x = rng.choice(nudged)        # the nudged atom carries pattern terms
+                t0 = [x] + [i for i in tups[0] if i != x][:ar - 1]
+                if len(t0) == ar and min(tuple(t0), tuple(reversed(t0))) not in \
+                        set(min(tuple(t), tuple(reversed(t))) for t in tups[1:]):
+                    tups[0] = t0
+            for tup in tups:
                 tagn += 1
                 terms.append({"a": tup, "ty": rng.randrange(ntk), "x": ["%s%s%d%s" % (side, k[0], tagn, l[-1]) for l in xl]})
         table = []
@@ -179,7 +201,7 @@ def make_replacement(rng, pat_elems, pat_pos, cfg, side="r", allow_empty=True):
               "types": {k: [] for k in KINDS + ["elem", "label", "mass", "pair"]},
               "xlabels": {k: [] for k in ["atom"] + KINDS}}
     info = {"retained": {i: a[1] for i, a in enumerate(atoms) if a[0] == "keep"},
-            "removed": gone}
+            "removed": gone, "nudged": {i: a[1] for i, a in enumerate(atoms) if a[0] == "nudge"}}
     return rj, info
 
 
@@ -255,6 +277,17 @@ def make_structure(rng, geo, rj, rinfo, cfg):
                             taken.add(key)
                             tuples.append(tup)
                             stats["override_planned"] += 1
+            for b in bases:     # attached to the matched atom next to which the pattern has a NUDGED atom
+                for j in set(rinfo.get("nudged", {}).values()):
+                    rest = [i for i in range(n) if i != b + j]
+                    if len(rest) >= ar - 1:
+                        tup = [b + j] + rng.sample(outside if len(outside) >= ar - 1 and rng.random() < 0.6 else rest, ar - 1)
+                        rng.shuffle(tup)
+                        key = min(tuple(tup), tuple(reversed(tup)))
+                        if key not in taken and len(set(tup)) == ar:
+                            taken.add(key)
+                            tuples.append(tup)
+                            stats["on_nudged"] = stats.get("on_nudged", 0) + 1
             for g in planted:   # inside one copy
                 tuples += _rand_tuples(rng, g, ar, rng.randint(0, 2), taken)
             tuples += _rand_tuples(rng, outside, ar, rng.randint(1, 2), taken)   # outside every copy
@@ -337,6 +370,7 @@ def random_cfg(rng, combos=None):
            "s_xterm": {k: rng.random() < 0.5 for k in KINDS}, "r_xterm": {k: rng.random() < 0.5 for k in KINDS}}
     # a good share of cases: the pattern RE-PARAMETERISES a retained atom under the SAME type label (and element) as
     # the structure's type of that atom, with a different mass and a different pair coefficient (both pair tables)
+    cfg["nudge"] = rng.random() < 0.3
     cfg["same_label"] = rng.random() < 0.4
     if cfg["same_label"]:
         cfg["s_pair"] = cfg["r_pair"] = True
@@ -371,7 +405,8 @@ def synthetic_case(rng, combos=None, pname=None, big=False, extra=None):
     opts = {"atol": 0.05, "fraction": 1.0 if rng.random() < 0.8 else rng.choice([0.5, 0.34, 0.75]),
             "replace_all": rng.random() < 0.15, "ignore": False, "seed": rng.randint(0, 10 ** 6)}
     meta = {"pattern": pname, "cell": geo["info"]["cell"], "copies": geo["info"]["copies"], "combo": cfg["combo"],
-            "s_pair": cfg["s_pair"], "r_pair": cfg["r_pair"], "override_planned": stats["override_planned"], "same_label_types": stats["same_label"]}
+            "s_pair": cfg["s_pair"], "r_pair": cfg["r_pair"], "override_planned": stats["override_planned"], "same_label_types": stats["same_label"], "nudged_atoms": len(rinfo.get("nudged", {})),
+            "terms_on_nudged_partner": stats.get("on_nudged", 0)}
     return {"s": sj, "p": search_json(pe, pp), "r": rj, "opts": opts, "meta": meta}
 
 
